@@ -17,6 +17,13 @@
 #include <unistd.h>
 
 static int T = 8, N = 50;
+static int NULLARGV = 0;        /* --nullargv: every 5th call (i % 5 == 3) passes argv NULL (even threads) or {NULL} (odd threads) */
+static int CANARY = 0;          /* --canary: a thread that never execs watches process-wide state and its own descriptors */
+static long STACK = 0;          /* --stack N: worker threads get N bytes of stack */
+static atomic_int workers_done;
+static long canary_iter, canary_fd_lost, canary_umask_changed, canary_cwd_changed;
+#include <fcntl.h>
+#include <sys/stat.h>
 static unsigned SEED = 1;
 static atomic_int inflight, maxinflight;
 static atomic_long nreal;
@@ -37,11 +44,15 @@ static unsigned rnd(unsigned *s) {
     return (*s >> 8) & 0xffffff;
 }
 
-static void one_call(const char *tok, int use_v) {
+static void one_call_x(const char *tok, int use_v, int argv_kind);
+static void one_call(const char *tok, int use_v) { one_call_x(tok, use_v, 0); }
+static void one_call_x(const char *tok, int use_v, int argv_kind) {
     char path[96], a1[96];
     snprintf(path, sizeof path, "/bin/%s", tok);
     snprintf(a1, sizeof a1, "arg-%s", tok);
-    char *argv[] = {path, a1, NULL};
+    char *argv_full[] = {path, a1, NULL};
+    char *argv_empty[] = {NULL};
+    char **argv = argv_kind == 0 ? argv_full : argv_kind == 1 ? NULL : argv_empty;
     char *envp[] = {"E=1", NULL};
     int (*volatile p_execv)(const char *, char *const *) = execv;
     int (*volatile p_execve)(const char *, char *const *, char *const *) = execve;
@@ -63,9 +74,47 @@ static void *worker(void *a) {
     for (int i = 0; i < N; i++) {
         char tok[64];
         snprintf(tok, sizeof tok, "T%dC%dz", t, i);
-        one_call(tok, (i + t) & 1);
+        one_call_x(tok, (i + t) & 1, (NULLARGV && i % 5 == 3) ? 1 + (t & 1) : 0);
         if ((rnd(&s) & 3) == 0)
             for (unsigned k = rnd(&s) % 4; k; k--) sched_yield();
+    }
+    return NULL;
+}
+
+/* the canary: opens a file of its own, keeps it for a moment, and checks it is still the same file; reads the process umask
+   (from /proc, without changing it) and the working directory.  None of these may be disturbed by exec calls of other threads. */
+static void *canary(void *a) {
+    (void) a;
+    char cwd0[4096] = "", cwd1[4096];
+    if (readlink("/proc/self/cwd", cwd0, sizeof cwd0 - 1) < 0) cwd0[0] = 0;
+    while (!atomic_load(&workers_done)) {
+        canary_iter++;
+        int fd = open("canary-file", O_RDWR | O_CREAT, 0600);
+        struct stat s0, s1;
+        if (fd >= 0 && fstat(fd, &s0) == 0) {
+            for (int k = 0; k < 3; k++) sched_yield();
+            if (fstat(fd, &s1) != 0 || s1.st_ino != s0.st_ino || s1.st_dev != s0.st_dev) canary_fd_lost++;
+            else if (write(fd, "c", 1) != 1) canary_fd_lost++;
+            close(fd);
+        }
+        if (canary_iter % 8 == 0) {
+            char buf[2048];
+            int sfd = open("/proc/self/status", O_RDONLY);
+            if (sfd >= 0) {
+                ssize_t r = read(sfd, buf, sizeof buf - 1);
+                close(sfd);
+                if (r > 0) {
+                    buf[r] = 0;
+                    const char *u = strstr(buf, "Umask:");
+                    if (u && strtol(u + 6, NULL, 8) != 027) canary_umask_changed++;
+                }
+            }
+            ssize_t l = readlink("/proc/self/cwd", cwd1, sizeof cwd1 - 1);
+            if (l >= 0) {
+                cwd1[l] = 0;
+                if (strcmp(cwd0, cwd1)) canary_cwd_changed++;
+            }
+        }
     }
     return NULL;
 }
@@ -78,6 +127,9 @@ int main(int argc, char **argv) {
         else if (!strcmp(argv[i], "--calls")) N = atoi(argv[++i]);
         else if (!strcmp(argv[i], "--seed")) SEED = atoi(argv[++i]);
         else if (!strcmp(argv[i], "--out")) outp = argv[++i];
+        else if (!strcmp(argv[i], "--nullargv")) NULLARGV = 1;
+        else if (!strcmp(argv[i], "--canary")) CANARY = 1;
+        else if (!strcmp(argv[i], "--stack")) STACK = atol(argv[++i]);
     }
     if (mnt) {
         char src[4096], *c;
@@ -94,8 +146,19 @@ int main(int argc, char **argv) {
     if (T > 256) T = 256;
     pthread_t th[256];
     pthread_barrier_init(&bar, NULL, T);
-    for (long t = 0; t < T; t++) pthread_create(&th[t], NULL, worker, (void *) t);
+    umask(027);
+    pthread_t can;
+    if (CANARY) pthread_create(&can, NULL, canary, NULL);
+    pthread_attr_t at;
+    pthread_attr_init(&at);
+    if (STACK) pthread_attr_setstacksize(&at, STACK);
+    for (long t = 0; t < T; t++) pthread_create(&th[t], &at, worker, (void *) t);
     for (int t = 0; t < T; t++) pthread_join(th[t], NULL);
+    atomic_store(&workers_done, 1);
+    if (CANARY) {
+        pthread_join(can, NULL);
+        fprintf(out, "CANARY iterations=%ld fd_lost=%ld umask_changed=%ld cwd_changed=%ld\n", canary_iter, canary_fd_lost, canary_umask_changed, canary_cwd_changed);
+    }
     fprintf(out, "THREAD %d %lu %ld\n", 9999, (unsigned long) pthread_self(), (long) syscall(SYS_gettid));
     one_call("LONEz", 0);
     fprintf(out, "DONE threads=%d calls=%d maxinflight=%d nreal=%ld\n", T, N, atomic_load(&maxinflight), atomic_load(&nreal));
